@@ -188,7 +188,12 @@ def _hybrid(chk, repo):
             "state captured before and restored after reinitialize (NUTS: initial_point = current_point)", "; ".join(problems), step_src)
     # R4: sample / warmup
     for m in ("sample", "warmup"):
-        fn = repo.method(ci, m)[1]
+        fn_src = repo.method(ci, m)[1]
+        fn = fn_src
+        if not [n for n in fn.body if isinstance(n, (ast.For, ast.While))]:
+            # the sweep loop moved into a private helper shared by sample and warmup: inlined again (a default such as tune_interval=None is folded)
+            from .common import canon_keep
+            fn = canon_keep(repo, ci, fn_src, {"step", "tune", "_store_samples", "_set_targets", "_set_target"})
         lp = _single_loop(fn, f"{ci.qual}.{m}")
         idx = [(i, unparse(s)) for i, s in enumerate(lp.body) if isinstance(s, ast.Expr)]
         i_step = [i for i, t in idx if t == "self.step()"]
@@ -467,7 +472,7 @@ def _legacy(chk, repo):
     aw = repo.method(ci, "_allocate_samples_warmup")[1]
     nb = func_params(aw)[1]
     val = {pn("hasattr(self,'samples_warmup')"): True, pn(f"{nb}!=0"): True, pn(f"{nb}==0"): False, pn(f"0<{nb}"): True, pn(f"{nb}>0"): True}
-    eff = method_effects(repo, ci, aw, valuation=val, level=2)
+    eff = method_effects(repo, ci, aw, valuation=val, view=canon_fn(repo, ci, aw, 3))          # helpers inlined, (boolean) temporaries substituted
     kinds = sorted({e["kind"] for e in eff})
     chk.decide("C09-R4", f"{ci.qual}._allocate_samples_warmup/second-warm-up", kinds == ["raise"], bool(eff) and "unknown" not in kinds, site(repo, aw),
                "warm-up storage present and Nb != 0 -> refused on every path",
